@@ -35,7 +35,8 @@ theorem C08_arith_trees (d : Doc) (cfg : ECfg) (regexOk : RegexOk) (limit : Nat)
 
 /-- **C08, full fragment** (with `mod` on the oracle's domain, `count` over flat paths and `sum`
 over flat paths selecting numeric nodes only); hypotheses of C01 for the `count`/`sum` arguments: well-formed document, valid context node, navigator
-exposing namespace URIs, NoFnvCollision -/
+exposing namespace URIs,
+`HashInj` (node keys are injective: a theorem, `PathSem.hashInj_holds` — see the `_unconditional` corollary) -/
 theorem C08_main {d : Doc} (wf : WF d) (cfg : ECfg) (hns : cfg.nsIface = true)
     (hinj : HashInj d cfg) (regexOk : RegexOk) (limit : Nat) (sdf : Bool)
     (c : Ref) (hc : validRef d c = true) (i n : Nat) {e : Ast} (he : NumEF d ⟨c, i, n⟩ F e)
@@ -43,6 +44,16 @@ theorem C08_main {d : Doc} (wf : WF d) (cfg : ECfg) (hns : cfg.nsIface = true)
     ∃ x : F, evalP (F := F) d cfg o.q c = .ok (.num x) ∧
       Spec.eval (F := F) d e ⟨c, i, n⟩ = .ok (.val (.num x) none) :=
   numEF_sem wf cfg hns hinj regexOk limit sdf c hc i n he fl st o hb
+
+/-- `C08_main` without the `HashInj` hypothesis (it is a theorem now: `hashInj_holds`; the side
+condition left is "no element has two attributes with the same prefix, name and value") -/
+theorem C08_main_unconditional {d : Doc} (wf : WF d) (cfg : ECfg) (hns : cfg.nsIface = true)
+    (hattr : AttrTriplesDistinct d) (regexOk : RegexOk) (limit : Nat) (sdf : Bool)
+    (c : Ref) (hc : validRef d c = true) (i n : Nat) {e : Ast} (he : NumEF d ⟨c, i, n⟩ F e)
+    (fl : Flags) (st : BState) (o : BOut) (hb : build regexOk limit true sdf e fl st = .ok o) :
+    ∃ x : F, evalP (F := F) d cfg o.q c = .ok (.num x) ∧
+      Spec.eval (F := F) d e ⟨c, i, n⟩ = .ok (.val (.num x) none) :=
+  C08_main wf cfg hns (PathSem.hashInj_holds wf hattr cfg) regexOk limit sdf c hc i n he fl st o hb
 
 /-- … at the public API: `Expr.Evaluate` returns the `float64` that the oracle's top-level
 evaluation returns -/
@@ -53,6 +64,16 @@ theorem C08_evaluate {d : Doc} (wf : WF d) (cfg : ECfg) (hns : cfg.nsIface = tru
     ∃ x : F, evaluate (F := F) d cfg o.q c = .ok (.num x) ∧
       Spec.evalTop (F := F) d e c = .ok (.num x) :=
   numEF_evaluate wf cfg hns hinj regexOk limit sdf c hc he st o hb
+
+/-- `C08_evaluate` without the `HashInj` hypothesis (it is a theorem now: `hashInj_holds`; the side
+condition left is "no element has two attributes with the same prefix, name and value") -/
+theorem C08_evaluate_unconditional {d : Doc} (wf : WF d) (cfg : ECfg) (hns : cfg.nsIface = true)
+    (hattr : AttrTriplesDistinct d) (regexOk : RegexOk) (limit : Nat) (sdf : Bool)
+    (c : Ref) (hc : validRef d c = true) {e : Ast} (he : NumEF d ⟨c, 1, 1⟩ F e)
+    (st : BState) (o : BOut) (hb : build regexOk limit true sdf e {} st = .ok o) :
+    ∃ x : F, evaluate (F := F) d cfg o.q c = .ok (.num x) ∧
+      Spec.evalTop (F := F) d e c = .ok (.num x) :=
+  C08_evaluate wf cfg hns (PathSem.hashInj_holds wf hattr cfg) regexOk limit sdf c hc he st o hb
 
 /-- **C08, `sum()` over numeric nodes**: for a flat path `P`, if the oracle evaluates `sum(P)` to
 the number `x` — which it does exactly when every node `P` selects is numeric — the plan the
@@ -68,6 +89,19 @@ theorem C08_sum {d : Doc} (wf : WF d) (cfg : ECfg) (hns : cfg.nsIface = true)
     evalP (F := F) d cfg o.q c = .ok (.num x) :=
   sum_flat_sem wf cfg hns hinj regexOk limit sdf c hc i n hp pfx x g hx fl st o hb
 
+/-- `C08_sum` without the `HashInj` hypothesis (it is a theorem now: `hashInj_holds`; the side
+condition left is "no element has two attributes with the same prefix, name and value") -/
+theorem C08_sum_unconditional {d : Doc} (wf : WF d) (cfg : ECfg) (hns : cfg.nsIface = true)
+    (hattr : AttrTriplesDistinct d) (regexOk : RegexOk) (limit : Nat) (sdf : Bool)
+    (c : Ref) (hc : validRef d c = true) (i n : Nat) {p : Ast} (hp : FlatPath p) (pfx : String)
+    (x : F) (g : Option (List (List Ref)))
+    (hx : Spec.eval (F := F) d (.call "sum" pfx (.acons p .anil)) ⟨c, i, n⟩ = .ok (.val (.num x) g))
+    (fl : Flags) (st : BState) (o : BOut)
+    (hb : build regexOk limit true sdf (.call "sum" pfx (.acons p .anil)) fl st = .ok o) :
+    evalP (F := F) d cfg o.q c = .ok (.num x) :=
+  C08_sum wf cfg hns (PathSem.hashInj_holds wf hattr cfg) regexOk limit sdf c hc i n hp pfx x g hx
+    fl st o hb
+
 /-- … at the public API -/
 theorem C08_sum_evaluate {d : Doc} (wf : WF d) (cfg : ECfg) (hns : cfg.nsIface = true)
     (hinj : HashInj d cfg) (regexOk : RegexOk) (limit : Nat) (sdf : Bool)
@@ -77,6 +111,18 @@ theorem C08_sum_evaluate {d : Doc} (wf : WF d) (cfg : ECfg) (hns : cfg.nsIface =
     (hb : build regexOk limit true sdf (.call "sum" pfx (.acons p .anil)) {} st = .ok o) :
     evaluate (F := F) d cfg o.q c = .ok (.num x) :=
   sum_flat_evaluate wf cfg hns hinj regexOk limit sdf c hc hp pfx x hx st o hb
+
+/-- `C08_sum_evaluate` without the `HashInj` hypothesis (it is a theorem now: `hashInj_holds`; the side
+condition left is "no element has two attributes with the same prefix, name and value") -/
+theorem C08_sum_evaluate_unconditional {d : Doc} (wf : WF d) (cfg : ECfg) (hns : cfg.nsIface = true)
+    (hattr : AttrTriplesDistinct d) (regexOk : RegexOk) (limit : Nat) (sdf : Bool)
+    (c : Ref) (hc : validRef d c = true) {p : Ast} (hp : FlatPath p) (pfx : String) (x : F)
+    (hx : Spec.evalTop (F := F) d (.call "sum" pfx (.acons p .anil)) c = .ok (.num x))
+    (st : BState) (o : BOut)
+    (hb : build regexOk limit true sdf (.call "sum" pfx (.acons p .anil)) {} st = .ok o) :
+    evaluate (F := F) d cfg o.q c = .ok (.num x) :=
+  C08_sum_evaluate wf cfg hns (PathSem.hashInj_holds wf hattr cfg) regexOk limit sdf c hc hp pfx x
+    hx st o hb
 
 /-- what the engine computes for `sum(P)` *whatever* the nodes are: Go's callback (skip the nodes
 whose text is not a number) folded over the oracle's node list.  Where some node is not numeric
@@ -91,6 +137,20 @@ theorem C08_sum_model {d : Doc} (wf : WF d) (cfg : ECfg) (hns : cfg.nsIface = tr
         if isNaN (Spec.strToNum (F := F) (stringValue d r)) = true then acc
         else add acc (Spec.strToNum (stringValue d r))) (ofNat 0))) :=
   sum_flat_model wf cfg hns hinj regexOk limit sdf c hc i n hp pfx fl st o hb
+
+/-- `C08_sum_model` without the `HashInj` hypothesis (it is a theorem now: `hashInj_holds`; the side
+condition left is "no element has two attributes with the same prefix, name and value") -/
+theorem C08_sum_model_unconditional {d : Doc} (wf : WF d) (cfg : ECfg) (hns : cfg.nsIface = true)
+    (hattr : AttrTriplesDistinct d) (regexOk : RegexOk) (limit : Nat) (sdf : Bool)
+    (c : Ref) (hc : validRef d c = true) (i n : Nat) {p : Ast} (hp : FlatPath p) (pfx : String)
+    (fl : Flags) (st : BState) (o : BOut)
+    (hb : build regexOk limit true sdf (.call "sum" pfx (.acons p .anil)) fl st = .ok o) :
+    ∃ ns g, Spec.eval (F := F) d p ⟨c, i, n⟩ = .ok (.val (.nodes ns) g) ∧
+      evalP (F := F) d cfg o.q c = .ok (.num (ns.foldl (fun acc r =>
+        if isNaN (Spec.strToNum (F := F) (stringValue d r)) = true then acc
+        else add acc (Spec.strToNum (stringValue d r))) (ofNat 0))) :=
+  C08_sum_model wf cfg hns (PathSem.hashInj_holds wf hattr cfg) regexOk limit sdf c hc i n hp pfx fl
+    st o hb
 
 /-- **same operation, same operands, same order**: the value of `a op b` is `f x y` on both
 sides, for the one `NumAlg` operation `f` that `op` denotes and the values `x`, `y` of the
